@@ -86,7 +86,7 @@ def Prog (s s' : State) (t : Tid) (e : Ev) : Prop :=
      ∨ rk s' t < rk s t                                                          -- progress
      ∨ (isSpin (s.pc t) = true ∧ isSpin (s'.pc t) = true ∧ rk s' t = rk s t
           ∧ lockWaitOf (s'.pc t) (s'.fr t) = lockWaitOf (s.pc t) (s.fr t))       -- inside a test-and-set loop
-     ∨ (∃ j, s.pc t = .wPdWait j ∧ e = .pdRet j false)                           -- woken: a token is consumed
+     ∨ (∃ j, s.pc t = .wPdWait j ∧ e = .pdRet j false ∧ rk s' t < offU (s.fr t).count)  -- woken: a token is consumed, new scan
      ∨ (isNfWake (s.pc t) = true ∧ s'.pc t = s.pc t)                             -- protocol-driven wake loop
      ∨ (sgNext (s.pc t) (s'.pc t) ∧ s'.post t = s.post t)))                       -- signal / broadcast before its wake loop
 
